@@ -104,6 +104,13 @@ CHECKS.update({
    note=BIN_NOTE + " JSON field names are not prescribed: fields are recognised by type and content."),
 })
 
+CHECKS.update({
+ "C10": dict(engine="crashmc", cat="fault_enumeration", ref="§2.1, §3 C10",
+   technique="exhaustive crash-point enumeration: strace log of every mutating syscall of a run = the device log; every prefix and every torn cache write is a crash state, continued with every edit x unforced run on the real code against the crash-updated reference model",
+   text="For every state of the force-free/failure-free closure of each program and every run from it (every topological-sort order) the run is executed under strace; every prefix of its mutating-syscall log (cache writes interleaved with task markers) and every torn version of each cache write (quick: token boundaries; thorough: every byte) is materialised as a crash state and continued with {no edit, each edit} x each unforced run. Each continuation must stop with an explicit cache error or be skip-sound against the model in which exactly the tasks whose last marker lies inside the prefix have completed.",
+   note=HIST_NOTE + " Plus: strace's log is complete for the calls spok makes; SIGKILL loses no completed syscall; one kill per history."),
+})
+
 NOT_YET = {}
 
 ALL = ["C%02d" % i for i in range(1, 21)]
@@ -145,6 +152,8 @@ def main():
              "kind_free_text": "explicit-state search over project histories: states (disk, reference model), transitions executed by the real code"},
             {"name": "schedmc", "path": "harness/cmd/mc/schedmc.go, harness/overlay/vsched, harness/cmd/rewrite", "serves_properties": ["C04", "C18"],
              "kind_free_text": "hand-written stateless model checker for Go: controlled scheduler + source rewriter, preemption/deviation-bounded DFS over choice sequences, optional state-key pruning"},
+            {"name": "crashmc", "path": "harness/cmd/mc/c10.go", "serves_properties": ["C10"],
+             "kind_free_text": "crash-point enumerator: syscall log of the real run (strace) x all prefixes x torn writes, continued through histmc's transition function and reference model"},
             {"name": "cfgmc-bin", "path": "harness/cmd/mc/c09.go c12.go c13.go c19.go c20.go, harness/internal/bin", "serves_properties": ["C09", "C12", "C13", "C19", "C20"],
              "kind_free_text": "exhaustive enumeration of small configuration universes executed through the built spok binary in a sandbox as uid nobody, with whole-sandbox snapshots and a harness-owned side-effect log"},
             {"name": "cfgmc", "path": "harness/cmd/mc/c03.go c05.go c17.go", "serves_properties": ["C03", "C05", "C17"],
